@@ -74,6 +74,318 @@ def c15_replay(w):
     return [v for v in r.viol if v.cls == w.get("class_") or True]
 
 
+# --------------------------------------------------------------------------- C16
+
+LIT_RE = re.compile(r"^(-?)((?:[0-9]+(?:\.[0-9]*)?|\.[0-9]+))(?:/((?:[0-9]+(?:\.[0-9]*)?|\.[0-9]+)))?$")
+
+
+def exact_value(s):
+    """Exact base-10 value of a (leniently) well-formed literal, or None if the string is not one."""
+    from fractions import Fraction
+    m = LIT_RE.match(s)
+    if not m:
+        return None
+
+    def dec(t):
+        if "." in t:
+            a, b = t.split(".")
+            return Fraction(int(a or "0")) + (Fraction(int(b), 10 ** len(b)) if b else 0)
+        return Fraction(int(t))
+    v = dec(m.group(2))
+    if m.group(3) is not None:
+        d = dec(m.group(3))
+        if d == 0:
+            return None
+        v = v / d
+    return -v if m.group(1) else v
+
+
+def gen_literals(seed, tier):
+    import itertools
+    import random
+    rng = random.Random(seed)
+    alpha = "019./-"
+    out = []
+    maxlen = 4 if tier == "quick" else 6
+    for n in range(1, maxlen + 1):
+        for t in itertools.product(alpha, repeat=n):
+            out.append("".join(t))
+    out += ["007", "010/3", "0x10", "1e5", "1/0", "0/0", "1/00", "-0", "-0.0", "00.50", "1.50", "0.0101", "7.50203", "1.0203",
+            "100.5", "12.340", "0.00123", "1/-2", "--1", "+1", " 1", "1 ", "1/2/3", "1..2", "12a", "a", "", "/", ".", "-."]
+    for _ in range(300 if tier == "quick" else 20000):
+        k = rng.choice([1, 5, 20, 80, 400])
+        body = "".join(rng.choice("0123456789") for _ in range(k))
+        form = rng.random()
+        if form < 0.3:
+            lit = body
+        elif form < 0.6:
+            lit = body + "." + "".join(rng.choice("0000123456789") for _ in range(rng.choice([1, 3, 12, 60])))
+        elif form < 0.8:
+            lit = body + "/" + "".join(rng.choice("0123456789") for _ in range(rng.choice([1, 3, 12, 40])))
+        else:
+            lit = "0" * rng.randint(1, 5) + body + "." + "0" * rng.randint(0, 4) + body[:rng.randint(1, 5)] + "0" * rng.randint(0, 3)
+        if rng.random() < 0.3:
+            lit = "-" + lit
+        out.append(lit)
+    return [x for x in dict.fromkeys(out) if x and "\n" not in x]
+
+
+def c16_api_case(param):
+    from fractions import Fraction
+    from .. import outputs, sexpr
+    logic, lits = param
+    res = CaseResult()
+    # a crash ends the harness process: restart it behind the crashing literal (line numbers are made absolute)
+    out, err, start = "", "", 0
+    for _ in range(40):
+        rc, o, e = run_harness("asan", "h_numparse", [logic], stdin=("\n".join(lits[start:]) + "\n").encode())
+        err += e
+        crashed_at = None
+        for line in o.split("\n"):
+            f = line.split(" ", 3)
+            if line.startswith("R ") or line.startswith("FATAL "):
+                k = 1 if line.startswith("R ") else 2
+                f = line.split(" ")
+                f[k] = str(int(f[k]) + start)
+                if line.startswith("FATAL "):
+                    crashed_at = int(f[k])
+                out += " ".join(f) + "\n"
+            elif line.startswith("DONE"):
+                out += line + "\n"
+        if crashed_at is None:
+            m = re.findall(r"^R (\d+) ", o, re.M)
+            if "DONE" in o or not m:
+                break
+            crashed_at = int(m[-1]) + start + 1      # sanitizer abort without FATAL line: skip the next literal
+            err_site = sanitizer_site(e)
+            out += "FATAL 6 %d auto %s\n" % (crashed_at, lits[crashed_at - 1] if crashed_at <= len(lits) else "")
+        start = crashed_at
+        if start >= len(lits):
+            out += "DONE\n"
+            break
+    res.inc("api_logic_" + logic)
+    seen = set()
+
+    def viol(cls, site, detail, lit):
+        if (cls, site) in seen:
+            return
+        seen.add((cls, site))
+        res.viol.append(Violation(cls, site, detail, {"literal": lit, "logic": logic, "prop": "C16", "kind": "api"}))
+    for line in out.split("\n"):
+        if line.startswith("FATAL "):
+            f = line.split(" ", 4)
+            lit = f[4] if len(f) > 4 else ""
+            kind = "zero-denominator" if re.search(r"/0*(\.0*)?$", lit) else "other"
+            viol("api-crash", "sig%s:%s:%s" % (f[1], f[3] if len(f) > 3 else "", kind), "fatal signal %s in mkConst(%s) [%s]" % (f[1], lit, logic), lit)
+            continue
+        if not line.startswith("R "):
+            continue
+        f = line.split(" ", 4)
+        no, api, status = int(f[1]), f[2], f[3]
+        lit = lits[no - 1]
+        want = exact_value(lit)
+        res.evals += 1
+        if status == "exc" or status == "other":
+            res.inc("rejected")
+            continue
+        val_s, printed, sort = [x.strip() for x in f[4].split(" | ")]
+        got = Fraction(val_s)
+        if want is None:
+            shape = "no-digit" if not re.search(r"[0-9]", lit) else ("zero-denominator" if "/" in lit and exact_value(lit.split("/")[0]) is not None else "malformed")
+            viol("malformed-literal-accepted", "%s:%s" % (api, shape), "mkConst[%s](%r) in %s is accepted as %s although it is not a well-formed literal" % (api, lit, logic, val_s), lit)
+            continue
+        if api == "int" and ("." in lit or "/" in lit):
+            viol("malformed-literal-accepted", "int:not-integral-form", "mkConst(Int, %r) accepted as %s" % (lit, val_s), lit)
+            continue
+        if got != want:
+            shape = "fraction-leading-zero" if "/" in lit and re.match(r"^-?0[0-9]", lit) else ("decimal" if "." in lit else "numeral")
+            viol("literal-value-wrong", "%s:%s" % (api, shape), "mkConst[%s](%r) in %s denotes %s, exact value is %s" % (api, lit, logic, got, want), lit)
+            continue
+        try:
+            pv = outputs.parse_number(sexpr.parse_one(printed))
+        except Exception:
+            pv = None
+        if pv != want:
+            viol("printed-value-wrong", api, "constant %r is printed as %s which denotes %s" % (lit, printed, pv), lit)
+            continue
+        res.inc("accepted_exact")
+        res.dkeys.append(h(lit))
+    if "DONE" not in out and not any(v.cls == "api-crash" for v in res.viol):
+        res.error = "h_numparse did not finish: %s" % err[-500:]
+    site = sanitizer_site(err)
+    if site:
+        viol("sanitizer-report", site, err[-2000:], "")
+    res.sample = {"logic": logic, "literals": lits[:3] + lits[-3:]}
+    return res
+
+
+def c16_exe_case(param):
+    """Literals through the executable: (assert (= x LIT)) (check-sat) (get-value (x))."""
+    from fractions import Fraction
+    from .. import outputs, sexpr
+    sort, lits = param
+    res = CaseResult()
+    seen = set()
+    logic = "QF_LRA" if sort == "Real" else "QF_LIA"
+    for lit in lits:
+        text = "(set-option :produce-models true)\n(set-logic %s)\n(declare-fun x () %s)\n(assert (= x %s))\n(check-sat)\n(get-value (x))\n" % (logic, sort, lit)
+        run = osmt.run_opensmt(text, flavour="asan", cpu_s=10)
+        res.evals += 1
+        want = exact_value(lit)
+        if run.crashed():
+            res.viol.append(Violation("exe-crash", "literal", "crash on literal %s\n%s" % (lit, run.err[-800:]), {"literal": lit, "sort": sort, "prop": "C16", "kind": "exe"}))
+            continue
+        if "(error" in run.out or "yntax error" in run.out or "At line" in run.out:
+            res.inc("exe_rejected")
+            continue
+        m = re.search(r"\(\(x (.*)\)\)\s*$", run.out.strip(), re.S)
+        ans = run.out.split("\n")[0].strip()
+        got = None
+        if m:
+            try:
+                got = outputs.parse_number(sexpr.parse_one(m.group(1)))
+            except Exception:
+                got = None
+        if want is None or ans != "sat" or got != want:
+            shape = "leading-zero" if re.match(r"^-?0[0-9]", lit) else ("decimal" if "." in lit else "other")
+            key = ("literal-silently-misread", shape)
+            if key not in seen:
+                seen.add(key)
+                res.viol.append(Violation("literal-silently-misread", "%s:%s" % (sort, shape),
+                                          "the executable accepts (= x %s) without any error but answers %s with x = %s (exact value %s)" % (lit, ans, got, want),
+                                          {"literal": lit, "sort": sort, "prop": "C16", "kind": "exe"}))
+            continue
+        res.inc("exe_exact")
+        res.dkeys.append(h("exe" + lit))
+    res.sample = {"sort": sort, "literals": lits[:4]}
+    return res
+
+
+def c16_replay(w):
+    if w.get("kind") == "exe":
+        return c16_exe_case((w["sort"], [w["literal"]])).viol
+    return c16_api_case((w["logic"], [w["literal"]])).viol
+
+
+# --------------------------------------------------------------------------- C14 / C28
+
+TERM_LOGICS = ["QF_UF", "QF_LRA", "QF_LIA", "QF_UFLIA", "QF_AUFLIRA", "QF_UFLRA", "QF_ALIA"]
+
+
+def z3_batch(decls, pairs, timeout_ms=3000):
+    """One z3 process decides all (intended, got) pairs: returns list of 'unsat'/'sat'/'unknown'."""
+    lines = ["(set-option :timeout %d)" % timeout_ms] + decls
+    for a, b in pairs:
+        lines += ["(push 1)", "(assert (not (= %s %s)))" % (a, b), "(check-sat)", "(pop 1)"]
+    d = osmt.scratch_dir("terms")
+    import tempfile
+    fd, path = tempfile.mkstemp(suffix=".smt2", dir=d)
+    with os.fdopen(fd, "w") as f:
+        f.write("\n".join(lines) + "\n")
+    try:
+        p = subprocess.run(["z3-new", path], stdout=subprocess.PIPE, stderr=subprocess.PIPE, timeout=900)
+        out = [l.strip() for l in p.stdout.decode("utf-8", "replace").split("\n") if l.strip()]
+    finally:
+        os.remove(path)
+    res = []
+    for l in out:
+        if l in ("sat", "unsat", "unknown"):
+            res.append(l)
+        elif l.startswith("(error"):
+            res.append("error:" + l[:150])
+    return res
+
+
+def top_op(txt):
+    m = re.match(r"\(([^\s()]+)", txt)
+    return m.group(1) if m else txt[:10]
+
+
+def c14_case(param):
+    from .. import refs
+    seed, n, logic = param
+    res = CaseResult()
+    rc, out, err = run_harness("rel", "h_terms", [seed, n, logic])
+    decls, pairs, exc = [], [], []
+    for line in out.split("\n"):
+        if line.startswith("DECL "):
+            decls.append(line[5:])
+        elif line.startswith("P "):
+            f = line[2:].split(" | ")
+            if len(f) == 3:
+                pairs.append((f[1], f[2], f[0]))
+        elif line.startswith("X "):
+            f = line[2:].split(" | ")
+            exc.append((f[0], f[1] if len(f) > 1 else ""))
+    if "DONE" not in out:
+        res.error = "h_terms did not finish (rc=%s): %s" % (rc, err[-500:])
+        return res
+    res.inc("logic_" + logic)
+    verdicts = z3_batch(decls, [(a, b) for a, b, _ in pairs])
+    if len(verdicts) != len(pairs):
+        res.error = "z3 batch returned %d verdicts for %d pairs: %s" % (len(verdicts), len(pairs), verdicts[:3])
+        return res
+    seen = set()
+    for (a, b, srt), v in zip(pairs, verdicts):
+        res.evals += 1
+        op = top_op(a)
+        if v == "unsat":
+            res.inc("equivalent_" + op)
+            if a != b:
+                res.dkeys.append(h(a))
+        elif v == "sat":
+            text = "(set-logic ALL)\n" + "\n".join(decls) + "\n(assert (not (= %s %s)))\n(check-sat)\n" % (a, b)
+            c = refs.cvc5(text)
+            if c == "sat":
+                if op not in seen:
+                    seen.add(op)
+                    res.viol.append(Violation("constructor-not-equivalent", "%s:%s" % (op, srt),
+                                              "constructor result is not equivalent to its arguments' meaning (z3 and cvc5 find a counter-model)\n"
+                                              "intended: %s\nreturned: %s" % (a, b),
+                                              {"intended": a, "returned": b, "decls": decls, "logic": logic, "seed": seed, "prop": "C14"}))
+            else:
+                res.inconclusive += 1
+        else:
+            res.inconclusive += 1
+            res.inc("ref_" + v.split(":")[0])
+    for a, msg in exc:
+        res.evals += 1
+        op = top_op(a)
+        res.viol.append(Violation("constructor-exception", "%s:%s" % (op, re.sub(r"[^A-Za-z]+", "-", msg)[:30]),
+                                  "constructor threw on a defined, linear, well-sorted application: %s\n%s" % (msg, a),
+                                  {"intended": a, "logic": logic, "seed": seed, "prop": "C14"}))
+    res.sample = {"logic": logic, "seed": seed, "pair": list(pairs[len(pairs) // 2][:2]) if pairs else None}
+    return res
+
+
+def c28_case(param):
+    seed, n, logic = param
+    res = CaseResult()
+    rc, out, err = run_harness("rel", "h_terms", [seed, n, logic])
+    if "DONE" not in out:
+        res.error = "h_terms did not finish (rc=%s): %s" % (rc, err[-500:])
+        return res
+    res.inc("logic_" + logic)
+    for line in out.split("\n"):
+        if line.startswith("STAT "):
+            _, k, v = line.split()
+            if k in ("rebuilds", "permutations", "audited_terms"):
+                res.evals += int(v)
+                res.inc(k, int(v))
+            if k.startswith("op_"):
+                res.dkeys.append("%s:%s" % (logic, k))
+        elif line.startswith("V28 "):
+            kind, detail = line[4:].split(" | ", 1)
+            res.viol.append(Violation("term-identity:" + kind, top_op(detail), detail[:1500],
+                                      {"logic": logic, "seed": seed, "n": n, "prop": "C28"}))
+    res.sample = {"logic": logic, "seed": seed, "constructions": n}
+    return res
+
+
+def c28_replay(w):
+    return c28_case((w["seed"], w["n"], w["logic"])).viol
+
+
 def main(prop, tier):
     camp = Campaign(prop, tier)
     base = camp.seed
@@ -90,4 +402,47 @@ def main(prop, tier):
         camp.run(c15_case, [(base * 100 + i, nrandom, i, nproc) for i in range(nproc)], chunksize=1)
         # violations are de-duplicated by (class, op): keep
         return camp.finish(replay_fn=None, min_evals=100000)
+    if prop == "C16":
+        import random
+        lits = gen_literals(base, tier)
+        camp.rule = ("(a) API: every string of length <= %d over {0,1,9,.,/,-} plus curated and long random literals (up to 400 digits, "
+                     "leading/trailing zeros) through ArithLogic::mkConst(name), mkConst(Int,name), mkConst(Real,name) in QF_LRA, QF_LIA, "
+                     "QF_AUFLIRA: an accepted string must be a well-formed literal (own lenient grammar), denote its exact base-10 value "
+                     "(python Fractions) and print back to it; no crash; (b) executable: (= x LIT) / check-sat / get-value for well-formed "
+                     "literals and leading-zero variants: no error means sat with exactly that value; distinct_nontrivial = distinct "
+                     "literals read and printed exactly" % (4 if tier == "quick" else 6))
+        camp.assumptions = ["own literal grammar + exact rational arithmetic as oracle"]
+        chunks = [lits[i::5] for i in range(5)]
+        params = [(lg, ch) for lg in ("QF_LRA", "QF_LIA", "QF_AUFLIRA") for ch in chunks]
+        camp.run(c16_api_case, params, chunksize=1)
+        rng = random.Random(base)
+        wf = [l for l in lits if exact_value(l) is not None and not l.startswith(".") and not l.endswith(".") and "/." not in l]
+        rng.shuffle(wf)
+        nexe = 400 if tier == "quick" else 20000
+        ints = [l for l in wf if re.match(r"^[0-9]+$", l)][:nexe // 2]
+        reals = [l for l in wf if not l.startswith("-")][:nexe // 2]
+        camp.run(c16_exe_case, [("Int", ints[i::8]) for i in range(8)] + [("Real", reals[i::8]) for i in range(8)], chunksize=1)
+        return camp.finish(replay_fn=c16_replay, min_evals=2000)
+    if prop == "C14":
+        per, n = (2, 2500) if tier == "quick" else (40, 20000)
+        camp.rule = ("h_terms builds random well-sorted argument tuples bottom-up through mkAnd/mkOr/mkNot/mkImpl/mkXor/mkIte/"
+                     "mkEq/mkDistinct/mkPlus/mkMinus/mkNeg/mkTimes/mkRealDiv/mkIntDiv/mkMod/mkLeq/mkLt/mkGeq/mkGt/mkSelect/"
+                     "mkStore/UF application (boundary constants, repeated and complementary arguments, depth grows with the pool); "
+                     "for every call (not (= <op applied to the intended meaning of the arguments> <printed result>)) must be "
+                     "unsat in z3, a counter-model must be confirmed by cvc5; an exception on a linear defined application is a "
+                     "violation; distinct_nontrivial = distinct calls whose result differs syntactically from the input")
+        camp.assumptions = ["z3 5.1 (+cvc5 for counter-models)", "results printed with the solver's printer (C17)"]
+        params = [(base * 1000 + i * 17 + k, n, lg) for i, lg in enumerate(TERM_LOGICS) for k in range(per)]
+        camp.run(c14_case, params, chunksize=1)
+        return camp.finish(replay_fn=None, min_evals=5000)
+    if prop == "C28":
+        per, n = (3, 12000) if tier == "quick" else (40, 60000)
+        camp.rule = ("h_terms: every constructor call is repeated and must return the same identity; and/or/+/* are re-called "
+                     "with reversed arguments (when the result symbol is marked commutative) and must return the same identity; at "
+                     "the end the whole term table is audited: no two identities with equal (symbol, children), every child "
+                     "older than its parent, ids increasing; evaluations = rebuilds + permutations + audited terms")
+        camp.assumptions = ["order-insensitivity is only demanded of and/or/+/* (constructors that sort their arguments)"]
+        params = [(base * 1000 + i * 19 + k, n, lg) for i, lg in enumerate(TERM_LOGICS) for k in range(per)]
+        camp.run(c28_case, params, chunksize=1)
+        return camp.finish(replay_fn=c28_replay, min_evals=5000)
     return 2
